@@ -20,7 +20,7 @@ RULE = ("one run = one line (connected or stand-alone, vlevel 0-3) with 1-6 tag 
         "distinct (datatype, value digest, vlevel, path) tuples")
 PROBES = ["representable_roundtrip", "unrepresentable_reported", "declared_datatype", "default_datatype",
           "b_subtype_boundary", "connected_file_restart", "overwrite_same_tag", "set_rejected_at_level3",
-          "nonfinite_float", "string_with_control", "interleaved_edit"]
+          "nonfinite_float", "string_with_control", "interleaved_edit", "set_none"]
 STUBS = ["disk: gfapy.gfa.open -> SimDisk"]
 
 BASE_LINES = {
@@ -36,7 +36,19 @@ FLOAT_POOL = [0.0, -0.0, 0.5, -1.25, 1e-05, 2.5e+20, 1e+100, 1e-300, 123.456, 3.
 def val_pool(rng):
     """(json-able value spec, kind) ; kind is the python class seen by gfapy"""
     k = rng.choice(["int", "int", "float", "str", "str", "char", "json", "intarr", "floatarr", "mixarr",
-                    "numarray", "bytearray", "nonfinite", "ctrlstr", "emptystr", "emptybytes"])
+                    "numarray", "bytearray", "nonfinite", "ctrlstr", "emptystr", "emptybytes", "boollist", "bigint",
+                    "json_odd", "none"])
+    if k == "boollist":
+        return {"__t": "boollist", "v": rng.choice([[True, False], [1, True], [False]])}, k
+    if k == "bigint":
+        # integers a float holds exactly, does not hold exactly, cannot hold at all
+        return {"__t": "bigint", "v": rng.choice(["2**53", "2**53+1", "10**400", "-(2**60)+1", "10**22"])}, k
+    if k == "json_odd":
+        return rng.choice([{"__t": "json_nan", "v": "nan"}, {"__t": "json_nan", "v": "inf"},
+                           {"__t": "intkeydict", "v": [[1, 2]]}, {"__t": "intkeydict", "v": [[1, "a"], ["1", "b"]]},
+                           {"__t": "tuplelist"}]), k
+    if k == "none":
+        return {"__t": "none"}, k
     if k == "int":
         return rng.choice(INT_POOL + [rng.randint(-10 ** 6, 10 ** 6)]), k
     if k == "float":
@@ -84,6 +96,18 @@ def pyval(v):
             return gfapy.NumericArray(v["v"])
         if t == "bytearray":
             return gfapy.ByteArray(bytes(v["v"]))
+        if t == "boollist":
+            return list(v["v"])
+        if t == "bigint":
+            return eval(v["v"], {"__builtins__": {}})
+        if t == "json_nan":
+            return {"a": [1, float(v["v"])]}
+        if t == "intkeydict":
+            return dict((a, b) for a, b in v["v"])
+        if t == "tuplelist":
+            return [(1, 2), "x"]
+        if t == "none":
+            return None
     return v
 
 
@@ -146,6 +170,14 @@ def representable(x, dt):
     if dt == "f":
         if isinstance(x, float):
             return math.isfinite(x)
+        if isinstance(x, bool):
+            return False
+        if isinstance(x, int):
+            # written as an integer, read back as a float: equal only if a float holds it exactly
+            try:
+                return float(x) == x
+            except OverflowError:
+                return False
         return None
     if dt == "Z":
         return isinstance(x, str) and bool(PRINT.match(x))
@@ -155,7 +187,8 @@ def representable(x, dt):
         if isinstance(x, (dict, list)) and not isinstance(x, gfapy.NumericArray):
             try:
                 import json
-                return bool(PRINT.match(json.dumps(x)))
+                s = json.dumps(x, allow_nan=False)
+                return bool(PRINT.match(s)) and json.loads(s) == x
             except Exception:
                 return False
         return None
@@ -227,6 +260,15 @@ def run(scn, st):
     for n, op in enumerate(scn["ops"]):
         st.step()
         st.count("op." + op["op"])
+        if op["op"] == "set" and op["kind"] == "none":
+            # set(tag, None) is the documented other way of deleting a tag
+            had = core.call(line.get, op["tag"])
+            core.call(line.set, op["tag"], None)
+            acked.pop(op["tag"], None)
+            if not (had.ok and had.value is None):
+                mydt.pop(op["tag"], None)
+            st.count("probe.set_none")
+            continue
         if op["op"] == "set":
             x = pyval(op["value"])
             tag = op["tag"]
@@ -357,7 +399,15 @@ def checkpoint(w, line, g, acked, op, cfg, st, n):
             raise core.Violation("restart-failed", "restart from the written file raised %s: %s" %
                                  (r2.excname, str(r2.exc)[:200]), exc=r2.excname, frame=r2.frame)
         g2 = r2.value
-        cand = [l for l in g2.lines if str(l) == text]
+        from ..gtext import canon_lines
+
+        def _c(t):
+            # (an integer under an f tag is written as '-1' and, read back as -1.0, written as '-1.0')
+            try:
+                return canon_lines(t, cfg["version"])
+            except Exception:
+                return [t]
+        cand = [l for l in g2.lines if str(l) == text or _c(str(l)) == _c(text)]
         if not cand:
             raise core.Violation("line-lost", "the written line %r is not in the restarted Gfa" % text)
         l2 = cand[0]
